@@ -530,7 +530,47 @@ package bigbuff
 //@ func CombineContext
 //@   props C16 C12
 //@   ensures nonnil : ret != nil
-//@   ensures passthrough : ctx != nil && cancelled(ctx) ==> cancelled(ret)
+//@   ensures values : ctx != nil ==> ctxvalues(ret) == ctxvalues(ctx)
+//@   loop 0 invariant count : n >= 0 && icalls("context.WithCancel") == 0
+//@   loop 1 invariant hooks : heldnone() && cancel != nil && now(ctx) != nil && all(j, 0, len(stops), stops[j] != nil) && ctxvalues(now(ctx)) == ctxvalues(old(ctx)) || old(ctx) == nil
+//@   at-call context.WithCancel#0 precancelled : lasterr(other) != nil && arg0 == ctx__0
+//@   at-call context.WithCancel#1 derived : arg0 == now(ctx)
+//@   at-call context.AfterFunc#1 wire : arg0 == other && arg0 != nil && arg1 == cancel
+//@   at-call context.AfterFunc#0 cleanup : arg0 == now(ctx) && boundname(arg1) == "(stopCallbackSlice).Stop"
+
+//@ func (stopCallbackSlice).Stop
+//@   props C16 C12
+//@   requires hooks : all(j, 0, len(s), s[j] != nil)
+//@   loop 0 invariant all : true
+
+//@ func ChainAfterFunc
+//@   props C16
+//@   at-call context.AfterFunc#0 hook : arg0 == other && arg1 == f
+//@   at-call context.AfterFunc#1 chain : arg0 == ctx
+//@   ensures two : icalls("context.AfterFunc") == 2 && calls(f) == 0
+
+//@ func ChainAfterFunc$1
+//@   props C16
+//@   modular
+//@   requires wired : stop != nil && f != nil && stop != f
+//@   ensures once : calls(stop) == 1 && calls(f) == ite(lastres(stop, 0), 1, 0)
+
+//@ func ConflatedContext
+//@   props C16 C12
+//@   panics empty : len(contexts) == 0
+//@   loop 0 invariant counted : wgn(wg) == 1 + icalls("ChainAfterFunc") && (ok <==> icalls("ChainAfterFunc") > 0) && calls(now(cancel)) == 0 && now(ctx) != nil && now(cancel) != nil
+//@   at-call context.WithCancel#0 detached : nevercancelled(arg0) && ctxvalues(arg0) == ctxvalues(contexts[0])
+//@   at-call ChainAfterFunc#0 each : arg0 == now(ctx) && arg1 == ctx2 && boundname(arg2) == "(*sync.WaitGroup).Done" && boundrecv(arg2) == wg
+//@   ensures live : ok ==> calls(now(cancel)) == 0 && spawned("ConflatedContext$2") == 1 && wgn(wg) == icalls("ChainAfterFunc")
+//@   ensures dead : !ok ==> calls(now(cancel)) == 1 && spawned("ConflatedContext$2") == 0
+//@   ensures results : ctx != nil && cancel != nil
+
+//@ func ConflatedContext$2
+//@   props C16 C12
+//@   modular
+//@   requires wired : cancel != nil
+//@   ensures cancels : calls(cancel) == 1
+
 
 //@ func (*consumer).Get
 //@   requires recv : c != nil
